@@ -22,11 +22,11 @@ Fixpoint plain_stmt (st : stmt) : bool :=
 with plain_block (b : block) : bool :=
   match b with BNil => true | BCons st r => plain_stmt st && plain_block r end
 with plain_blocks (h : blocks) : bool :=
-  match h with HNil => true | HCons b r => plain_block b && plain_blocks r end.
+  match h with HNil => true | HCons _ b r => plain_block b && plain_blocks r end.
 
 Lemma plain_hsel hs : forall n h, plain_blocks hs = true -> hsel hs n = Some h -> plain_block h = true.
 Proof.
-  induction hs as [|b r IH]; intros n h P E; simpl in *; [discriminate|].
+  induction hs as [|a b r IH]; intros n h P E; simpl in *; [discriminate|].
   apply andb_true_iff in P; destruct P as [Pb Pr]. destruct n; [injection E as <-; exact Pb | eapply IH; eassumption].
 Qed.
 
@@ -67,7 +67,7 @@ Proof.
     destruct (brk_stmt f k st) as [[s' k1] u1] eqn:E1. destruct (brk_block f k1 r) as [[r' k2] u2] eqn:E2.
     pose proof (IH1 f k) as A. pose proof (IH2 f k1) as B. rewrite E1 in A; rewrite E2 in B; simpl in *; lia.
   - intros f k; simpl; lia.
-  - intros b IH1 r IH2 f k; simpl.
+  - intros a b IH1 r IH2 f k; simpl.
     destruct (brk_block f k b) as [[b' k1] u1] eqn:E1. destruct (brk_blocks f k1 r) as [[r' k2] u2] eqn:E2.
     pose proof (IH1 f k) as A. pose proof (IH2 f k1) as B. rewrite E1 in A; rewrite E2 in B; simpl in *; lia.
 Qed.
@@ -83,7 +83,7 @@ Lemma brk_hsel hs : forall f k n h, hsel hs n = Some h ->
   exists kk, k <= kk /\ hsel (fst (fst (brk_blocks f k hs))) n = Some (fst (fst (brk_block f kk h))) /\
              (snd (brk_block f kk h) = true -> snd (brk_blocks f k hs) = true).
 Proof.
-  induction hs as [|b r IH]; intros f k n h E; simpl in *; [discriminate|].
+  induction hs as [|a b r IH]; intros f k n h E; simpl in *; [discriminate|].
   destruct (brk_block f k b) as [[b' k1] u1] eqn:E1. destruct (brk_blocks f k1 r) as [[r' k2] u2] eqn:E2.
   destruct n.
   - injection E as <-. exists k. rewrite E1. simpl. split; [lia|]. split; [reflexivity | intros ->; reflexivity].
@@ -94,9 +94,40 @@ Qed.
 
 Lemma brk_hsel_none hs : forall f k n, hsel hs n = None -> hsel (fst (fst (brk_blocks f k hs))) n = None.
 Proof.
-  induction hs as [|b r IH]; intros f k n E; simpl in *; [reflexivity|].
+  induction hs as [|a b r IH]; intros f k n E; simpl in *; [reflexivity|].
   destruct (brk_block f k b) as [[b' k1] u1] eqn:E1. destruct (brk_blocks f k1 r) as [[r' k2] u2] eqn:E2.
   destruct n; [discriminate|]. simpl. pose proof (IH f k1 n E) as X. rewrite E2 in X. exact X.
+Qed.
+
+Lemma brk_dispatch hs f k d h d' : dispatch hs d = (Some h, d') ->
+  exists kk, k <= kk /\ dispatch (fst (fst (brk_blocks f k hs))) d = (Some (fst (fst (brk_block f kk h))), d') /\
+             (snd (brk_block f kk h) = true -> snd (brk_blocks f k hs) = true).
+Proof.
+  intros E. destruct hs as [|a b r]; [discriminate|]. destruct a.
+  - simpl in E. injection E as <- <-. exists k. simpl.
+    destruct (brk_block f k b) as [[b' k1] u1]. destruct (brk_blocks f k1 r) as [[r' k2] u2]. simpl.
+    split; [lia|]. split; [reflexivity | intros ->; reflexivity].
+  - assert (E' : hsel (HCons false b r) (dnat d) = Some h /\ d' = dtail d) by (simpl in E |- *; injection E as E1 E2; auto).
+    destruct E' as [E1 ->]. destruct (brk_hsel _ f k _ _ E1) as [kk [L [Hs Hu]]]. exists kk. split; [exact L|]. split; [|exact Hu].
+    simpl in Hs |- *. destruct (brk_block f k b) as [[b' k1] u1]. destruct (brk_blocks f k1 r) as [[r' k2] u2]. simpl in *.
+    rewrite Hs. reflexivity.
+Qed.
+
+Lemma brk_dispatch_none hs f k d d' : dispatch hs d = (None, d') ->
+  dispatch (fst (fst (brk_blocks f k hs))) d = (None, d').
+Proof.
+  intros E. destruct hs as [|a b r]; [exact E|]. destruct a; [discriminate|].
+  assert (E' : hsel (HCons false b r) (dnat d) = None /\ d' = dtail d) by (simpl in E |- *; injection E as E1 E2; auto).
+  destruct E' as [E1 ->]. pose proof (brk_hsel_none _ f k _ E1) as Hs.
+  simpl in Hs |- *. destruct (brk_block f k b) as [[b' k1] u1]. destruct (brk_blocks f k1 r) as [[r' k2] u2]. simpl in *.
+  rewrite Hs. reflexivity.
+Qed.
+
+Lemma plain_dispatch hs d h d' : plain_blocks hs = true -> dispatch hs d = (Some h, d') -> plain_block h = true.
+Proof.
+  intros P E. destruct hs as [|a b r]; [discriminate|]. destruct a.
+  - simpl in E, P. injection E as <- _. apply andb_true_iff in P. apply P.
+  - apply (plain_hsel (HCons false b r) (dnat d)); [exact P|]. simpl in E |- *. injection E as E1 _. exact E1.
 Qed.
 
 Lemma bo_raise o : bo o = ORaise <-> o = ORaise.
@@ -234,7 +265,8 @@ Theorem brk_correct_all :
   (forall b s d tr o s' d', run_block b s d tr o s' d' -> ok_block b s d tr o s' d').
 Proof.
   apply run_mutind.
-  - (* atom *) intros l s d _ f k Of. split; [|exact I]. intros sl. exists sl. simpl. split; [apply run_one; constructor | apply post_refl; discriminate].
+  - (* atom *) intros l s d _ f k Of. split; [|exact I]. intros sl. exists sl. simpl. pose proof (RAtom l sl d) as R.
+    destruct (fst (atom_res l d)); simpl; (split; [apply run_one; exact R | apply post_refl; discriminate]).
   - (* set: not plain *) intros f0 v s d P; discriminate.
   - (* break *) intros s d _ f k Of. split; [|exact I]. intros sl. exists (upd sl f true). simpl. split.
     + change (@nil label) with (@nil label ++ []). eapply RConsN; [constructor|]. apply RConsJ; [constructor | discriminate].
@@ -243,7 +275,8 @@ Proof.
       * congruence.
       * intros h _ Nf. unfold upd. destruct (Nat.eqb h f) eqn:E; [apply Nat.eqb_eq in E; congruence | reflexivity].
   - (* continue *) intros s d _ f k Of. split; [|exact I]. intros sl. exists sl. simpl. split; [apply run_one; constructor | apply post_refl; discriminate].
-  - (* return *) intros l s d _ f k Of. split; [|exact I]. intros sl. exists sl. simpl. split; [apply run_one; constructor | apply post_refl; discriminate].
+  - (* return *) intros l s d _ f k Of. split; [|exact I]. intros sl. exists sl. simpl. pose proof (RReturn l sl d) as R.
+    destruct (fst (atom_res l d)); simpl; (split; [apply run_one; exact R | apply post_refl; discriminate]).
   - (* if *)
     intros c b1 b2 s d v tc d1 tr o s' d' Ec _ IH P f k Of. split; [|exact I]. intros sl.
     simpl in P. apply andb_true_iff in P; destruct P as [P P2]. apply andb_true_iff in P; destruct P as [Pc P1].
@@ -379,11 +412,11 @@ Proof.
     + eapply post_u_mono; [|eapply post_then_normal; [|exact Po1|exact Po3]]; try lia.
       intros ->; reflexivity.
   - (* try: body raises, no handler, finally *)
-    intros body hs orelse final s d tr1 s1 d1 tr3 s3 d3 _ IHb Eh _ IHf P f k Of. split; [|exact I]. intros sl.
+    intros body hs orelse final s d tr1 s1 d1 d1' tr3 s3 d3 _ IHb Eh _ IHf P f k Of. split; [|exact I]. intros sl.
     simpl in P. apply andb_true_iff in P; destruct P as [P P3]. apply andb_true_iff in P; destruct P as [P P2].
     apply andb_true_iff in P; destruct P as [P1 Ph].
     simpl.
-    pose proof (brk_hsel_none hs f (snd (fst (brk_block f k body))) _ Eh) as Eh'.
+    pose proof (brk_dispatch_none hs f (snd (fst (brk_block f k body))) _ _ Eh) as Eh'.
     destruct (brk_block f k body) as [[body' k1] u1] eqn:E1.
     destruct (brk_blocks f k1 hs) as [[hs' k2] u2] eqn:E2.
     destruct (brk_block f k2 orelse) as [[orelse' k3] u3] eqn:E3.
@@ -400,11 +433,11 @@ Proof.
     + eapply post_u_mono; [|eapply post_then_normal; [|exact Po1|exact Po3]]; try lia.
       intros ->; reflexivity.
   - (* try: body raises, handler runs, finally *)
-    intros body hs orelse final s d tr1 s1 d1 h tr2 oh s2 d2 tr3 s3 d3 _ IHb Eh _ IHh _ IHf P f k Of. split; [|exact I]. intros sl.
+    intros body hs orelse final s d tr1 s1 d1 d1' h tr2 oh s2 d2 tr3 s3 d3 _ IHb Eh _ IHh _ IHf P f k Of. split; [|exact I]. intros sl.
     simpl in P. apply andb_true_iff in P; destruct P as [P P3]. apply andb_true_iff in P; destruct P as [P P2].
     apply andb_true_iff in P; destruct P as [P1 Ph].
     simpl.
-    destruct (brk_hsel hs f (snd (fst (brk_block f k body))) _ _ Eh) as [kk [Lk [Eh' Hu]]].
+    destruct (brk_dispatch hs f (snd (fst (brk_block f k body))) _ _ _ Eh) as [kk [Lk [Eh' Hu]]].
     destruct (brk_block f k body) as [[body' k1] u1] eqn:E1.
     destruct (brk_blocks f k1 hs) as [[hs' k2] u2] eqn:E2.
     destruct (brk_block f k2 orelse) as [[orelse' k3] u3] eqn:E3.
@@ -415,7 +448,7 @@ Proof.
     simpl in Lk, Eh', Hu; rewrite E2 in Eh', Hu; simpl in Eh', Hu.
     destruct (IHb P1 f k Of sl) as [sl1 [R1 Po1]]. rewrite E1 in R1, Po1; simpl in R1, Po1.
     assert (Ok : outside kk f) by (eapply outside_mono; [|exact Of]; lia).
-    destruct (IHh (plain_hsel _ _ _ Ph Eh) f kk Ok sl1) as [sl2 [R2 Po2]].
+    destruct (IHh (plain_dispatch _ _ _ _ Ph Eh) f kk Ok sl1) as [sl2 [R2 Po2]].
     assert (O3 : outside k3 f) by (eapply outside_mono; [|exact Of]; lia).
     destruct (IHf P3 f k3 O3 sl2) as [sl3 [R3 Po3]]. rewrite E4 in R3, Po3; simpl in R3, Po3.
     exists sl3. simpl. split.
